@@ -1973,6 +1973,22 @@ package desync
 //@ ghost var $wasRooted bool
 //@ ghost var $gbprev int
 
+//# C06 / C14: an upload is reported as done only if a PutObject of this chunk's object name, with the chunk's storage
+//# bytes, succeeded - for every retry budget (also 0 or negative: one attempt is always made), every number of failures
+//@ ghost var $put bool
+//@ ghost var $nm string
+//@ ghost var $putName string
+//@ func (s S3Store) StoreChunk
+//@   prop C06 C14
+//@   safety none
+//@   ghost@entry $put = false
+//@   ghost@after:PutObject $put = $r1 == nil
+//@   ghost@after:PutObject $putName = $a1
+//@   ghost@after:nameFromID $nm = $r0
+//@   label retry: invariant !$put
+//@   oncall PutObject: requires @C06,C14 $arg0 == s.bucket && $arg1 == $nm
+//@   ensures @C06,C14 r0 == nil ==> $put && $putName == $nm
+
 //@ func (s S3Store) GetChunk
 //@   prop C03
 //@   safety none
@@ -2413,6 +2429,30 @@ package desync
 // and the single-stream result for all interleavings is NOT decided, see DESIGN 0a): syncWith reports a
 // match only for a bucket entry with the same start and size, and reports zero bytes ahead only when
 // both the bucket entry it stopped at and the one before it are null chunks.
+
+//# one worker of the parallel chunker (sequential contract; the hand-over between workers is outside): after a failed
+//# skip over null chunks (Chunker.Advance has already moved its position and dropped its buffer when the seek fails) the
+//# worker reads nothing more from its chunker and hands out no further chunk - the error ends the worker; a skip is
+//# asked for whole null chunks only, and exactly that many null chunks of that size are handed out for it, each directly
+//# behind the one before; a cancellation is recorded as Interrupted
+//@ ghost var $adverr bool
+//@ ghost var $prevEnd int
+//@ func (c *pChunker) start
+//@   prop C02 C07
+//@   safety none
+//@   ghost@entry $adverr = false
+//@   ghost@after:Advance $adverr = $r0 != nil
+//@   oncall Next: requires @C02 !$adverr
+//@   assert@send:c.results @C02 !$adverr
+//@   oncall Advance: requires @C02 numNullChunks > 0 && $arg0 == numNullChunks * len(c.nullChunk.Data)
+//@   loop 1: invariant !$adverr
+//@   loop 2: invariant !$adverr && 0 <= i && i <= numNullChunks
+//@   ghost@loop2.head $prevEnd = nc.Start + nc.Size
+//@   assert@loop2.exit @C02 i == numNullChunks
+//@   assert@loop2.iterend @C02 nc.Start == $prevEnd && nc.Size == len(c.nullChunk.Data) && nc.ID == c.nullChunk.ID
+//# (the chunker's own precondition - its representation invariant - is not carried through this worker: Advance is
+//# outside the chunker's contract)
+//@   nochecks pre:Chunker.Next@Next
 
 //@ ghost var $syncNull bool
 //@ ghost var $prevNull bool
